@@ -163,3 +163,44 @@ Lemma pdf_codec_last pre c : pdf_codec (pre ++ [c]) = c.
 Proof. unfold pdf_codec. apply last_last. Qed.
 Lemma pdf_content_type_last tbl pre c : pdf_content_type tbl (pre ++ [c]) = pdf_content_type tbl [c].
 Proof. unfold pdf_content_type. rewrite pdf_codec_last. reflexivity. Qed.
+
+(* ---- reading a member by name *)
+Lemma zip_read_exact {B} (entries : list (str * B)) p b : zip_read entries p = Some b -> In (p, b) entries.
+Proof.
+  induction entries as [|[n x] r IH]; simpl; [discriminate|].
+  destruct (zip_read r p) as [y|] eqn:E.
+  - intro H. inversion H; subst. right. apply IH. reflexivity.
+  - destruct (str_eqb p n) eqn:En; [|discriminate]. intro H. inversion H; subst.
+    apply str_eqb_eq in En; subst. left. reflexivity.
+Qed.
+
+Lemma zip_read_absent {B} (entries : list (str * B)) p : ~ In p (map fst entries) -> zip_read entries p = None.
+Proof.
+  induction entries as [|[n x] r IH]; simpl; [reflexivity|]. intro H.
+  rewrite IH by tauto. destruct (str_eqb p n) eqn:E; [|reflexivity].
+  apply str_eqb_eq in E. subst. exfalso. apply H. left. reflexivity.
+Qed.
+
+(* duplicates: the last entry of the name is the one that is read *)
+Lemma zip_read_last {B} (pre post : list (str * B)) p b :
+  ~ In p (map fst post) -> zip_read (pre ++ (p, b) :: post) p = Some b.
+Proof.
+  intro H. induction pre as [|[n x] pre IH]; simpl.
+  - rewrite (zip_read_absent post p H), str_eqb_refl. reflexivity.
+  - rewrite IH. reflexivity.
+Qed.
+
+Lemma zip_read_member {B} (entries : list (str * B)) p :
+  (exists b, zip_read entries p = Some b) <-> member_of (map fst entries) p = Some p.
+Proof.
+  unfold member_of. split.
+  - intros [b H]. apply zip_read_exact in H.
+    assert (Hin : In p (map fst entries)) by (apply in_map_iff; exists (p, b); auto).
+    apply mem_str_In in Hin. rewrite Hin. reflexivity.
+  - destruct (mem_str p (map fst entries)) eqn:E; [|discriminate]. intros _.
+    apply mem_str_In in E. apply in_map_iff in E as [[n b] [Hn Hin]]. simpl in Hn. subst.
+    apply in_split in Hin as [pre [post ->]].
+    clear. induction pre as [|[n x] pre IH]; simpl.
+    + destruct (zip_read post p) as [y|]; [exists y; reflexivity | rewrite str_eqb_refl; exists b; reflexivity].
+    + destruct IH as [y Hy]. rewrite Hy. exists y. reflexivity.
+Qed.
